@@ -281,6 +281,67 @@ func handlerOptT[T any](h *NSpec, pre bool, rec *recorder) compose.GraphAddNodeO
 	return compose.WithStatePostHandler(f)
 }
 
+// state handlers of a passthrough node: eino declares them for `any` (the node has no type of its own);
+// the value passing through is a string or a map[string]any
+func passHandlerOpt(h *NSpec, isMap bool, pre bool, rec *recorder) compose.GraphAddNodeOpt {
+	if isMap {
+		return passHandlerOptT[map[string]any](h, pre, rec)
+	}
+	return passHandlerOptT[string](h, pre, rec)
+}
+
+func passHandlerOptT[T any](h *NSpec, pre bool, rec *recorder) compose.GraphAddNodeOpt {
+	fi, _, _, ft := natives[T, T](h, rec)
+	typed := func(x any) (T, error) {
+		v, ok := x.(T)
+		if !ok {
+			return v, fmt.Errorf("harness: handler of a passthrough node received %T", x)
+		}
+		return v, nil
+	}
+	if h.Nat[3] {
+		f := func(ctx context.Context, in *schema.StreamReader[any], st *gstate) (*schema.StreamReader[any], error) {
+			st.N++
+			out, err := ft(ctx, schema.StreamReaderWithConvert(in, typed))
+			if err != nil {
+				return nil, err
+			}
+			return schema.StreamReaderWithConvert(out, func(x T) (any, error) { return x, nil }), nil
+		}
+		if pre {
+			return compose.WithStreamStatePreHandler(f)
+		}
+		return compose.WithStreamStatePostHandler(f)
+	}
+	f := func(ctx context.Context, in any, st *gstate) (any, error) {
+		st.N++
+		v, err := typed(in)
+		if err != nil {
+			return nil, err
+		}
+		return fi(ctx, v)
+	}
+	if pre {
+		return compose.WithStatePreHandler(f)
+	}
+	return compose.WithStatePostHandler(f)
+}
+
+// passOpts: the state handlers of a passthrough node (op pass; W carries Pre / Post only)
+func (p *Prog) passOpts(rec *recorder) []compose.GraphAddNodeOpt {
+	var opts []compose.GraphAddNodeOpt
+	if p.W == nil {
+		return nil
+	}
+	if p.W.Pre != nil {
+		opts = append(opts, passHandlerOpt(p.W.Pre, p.PassMap, true, rec))
+	}
+	if p.W.Post != nil {
+		opts = append(opts, passHandlerOpt(p.W.Post, p.PassMap, false, rec))
+	}
+	return opts
+}
+
 func (p *Prog) wrapOpts(rec *recorder) []compose.GraphAddNodeOpt { return p.wrapOptsNoOut(rec, false) }
 
 // dropOut: the output key is given to the front end itself (Parallel.AddLambda(outputKey, ...))
@@ -545,7 +606,7 @@ func build(g gAPI, p *Prog, from []string, rec *recorder, lb *loopBuild) (entrie
 		return nil, from, nil
 	case "pass":
 		key := nodeKey(p.ID)
-		if err = g.AddPassthroughNode(key); err != nil {
+		if err = g.AddPassthroughNode(key, p.passOpts(rec)...); err != nil {
 			return
 		}
 		return []string{key}, []string{key}, connect(key)
@@ -749,7 +810,7 @@ func buildWF2(wf wfAPI, p *Prog, from []exitRef, viaBranch bool, rec *recorder) 
 	switch p.Op {
 	case "pass":
 		key := nodeKey(p.ID)
-		connect(wf.AddPassthroughNode(key))
+		connect(wf.AddPassthroughNode(key, p.passOpts(rec)...))
 		return []string{key}, []exitRef{{key, nil}}, nil
 	case "node":
 		key := nodeKey(p.N.ID)
@@ -847,7 +908,7 @@ func buildChain[I, O any](ch *compose.Chain[I, O], p *Prog, rec *recorder) error
 	for _, st := range stages {
 		switch st.Op {
 		case "pass":
-			ch.AppendPassthrough(compose.WithNodeKey(nodeKey(st.ID)))
+			ch.AppendPassthrough(append([]compose.GraphAddNodeOpt{compose.WithNodeKey(nodeKey(st.ID))}, st.passOpts(rec)...)...)
 		case "node", "sub":
 			l, g, err := single(st)
 			if err != nil {
